@@ -266,6 +266,8 @@ def add (a b : Val) : M Val :=
   | .bytearray x, .bytearray y => pure (.bytearray (x ++ y))
   | .bytes x, .bytes y => pure (.bytes (x ++ y))
   | .bytes x, .bytearray y => pure (.bytes (x ++ y))
+  | .list x, .list y => pure (.list (x ++ y))
+  | .tuple x, .tuple y => pure (.tuple (x ++ y))
   | _, _ => do pure (.int ((← asInt a) + (← asInt b)))
 
 def sub (a b : Val) : M Val := do pure (.int ((← asInt a) - (← asInt b)))
